@@ -332,6 +332,55 @@ def assign_values(which: int, v: int, w: int) -> bool:
     return (ok and t['keep'] is keep and t['src']['n'] == v) or fail(why='value kind', which=which, t=t)
 
 
+def assign_missing_wild(shape: int, present: bool, v: int, w: int) -> bool:
+    """missing= backfill combined with a wildcard in the part of the path that has to be created / that follows:
+    either the plain-Python effect on every match, or an error with the target unchanged -- never a silent no-op"""
+    start()
+    shape = concretize(shape, 0, 3)
+    if shape is OUT:
+        return True
+    calls = []
+
+    def fac():
+        calls.append(1)
+        return {}
+    if shape == 0:
+        t = {'cfg': {'items': [{'flag': w}, {'flag': w}]}} if present else {}
+        path = 'cfg.items.*.flag'
+    elif shape == 1:
+        t = {'a': {'b': {'p': {'c': w}, 'q': {'c': w}}}} if present else {'a': {}}
+        path = T['a']['b'].__star__()['c']
+    elif shape == 2:
+        t = {'rows': [{'x': {'y': w}}, {'x': {}}]} if present else {'rows': [{}, {}]}
+        path = 'rows.*.x.y'               # wildcard BEFORE the absent segments: every row is backfilled
+    else:
+        t = {'rows': []} if present else {}
+        path = 'rows.*.x'
+    snap = plain(t)
+    got = run(lambda: glom(t, Assign(path, v, missing=fac), glom_debug=True))
+    reach('missing_wild')
+    if got.kind == 'err':
+        return plain(t) == snap or fail(why='failed assignment modified the target', t=t, snap=snap)
+    # success: reading the path must yield v at every match (an empty match list is fine only if there is nothing to match)
+    back = run(lambda: glom(t, path, glom_debug=True))
+    if back.kind != 'ok':
+        return fail(why='assignment reported success but the path cannot be read back', back=back, t=t)
+    vals = back.value
+    if not isinstance(vals, list):
+        return fail(why='wildcard read-back', vals=vals)
+    if shape in (0, 1, 2) and present and len(vals) != 2:
+        return fail(why='not every match assigned', vals=vals, t=t)
+    if shape == 2 and not present and len(vals) not in (0, 2):
+        # entries for which the steps after a wildcard fail are dropped (C14): 'no match, nothing assigned' is as
+        # acceptable as backfilling every row; a partial assignment is not
+        return fail(why='partial backfill', vals=vals, t=t)
+    if shape == 2 and not present and len(vals) == 0 and plain(t) != snap:
+        return fail(why='nothing readable but the target changed', t=t, snap=snap)
+    if any(x != v for x in vals):
+        return fail(why='read-back differs', vals=vals, v=v)
+    return True
+
+
 def assign_s_rooted(present: int, style: int, use_missing: bool, v: int, w: int) -> bool:
     """S-rooted destinations: S['acc']['a']['b'] with 0-2 of the intermediate containers present, with and without missing=;
     the Assign step returns its target, the scope variable gets plain nested assignment, nothing else in the scope changes"""
@@ -437,6 +486,7 @@ def obligations(tier):
         obs.append(Ob(assign_wild_mixed, fixed={'k0': k1}, pre='0 <= k1 <= 3 and 0 <= k2 <= 3 and 0 <= seg <= 1', name='assign_wild_mixed_%d' % k1))
     obs.append(Ob(assign_wild3, pre='0 <= shape <= 1', name='assign_wild3'))
     obs.append(Ob(assign_s_rooted, pre='0 <= present <= 2 and 0 <= style <= 1', name='assign_s_rooted'))
+    obs.append(Ob(assign_missing_wild, pre='0 <= shape <= 3', name='assign_missing_wild'))
     obs.append(Ob(assign_fn, pre='0 <= which <= 3 and len(xs) <= 2', name='assign_fn'))
     # twins
     tp = '0 <= c0 < 5 and 0 <= c1 < 5 and 0 <= mkind <= 3'
